@@ -123,6 +123,14 @@ def gen(rng):
         steps.append(['f', home + '/w/often', 'the 101st', 0o644])
         args.insert(rng.randint(0, len(args)), home + '/w/often')
     cwd = rng.choice(['/', home])
+    if rng.random() < 0.05:
+        # an entry whose name begins with a dash, named as it is after '--' (trash-put -- *, a leftover file called -rf): after
+        # '--' everything is an operand
+        dn_ = rng.choice(['-f', '-rf', '-i', '-v', '--force', '-foo', '--trash-dir'])
+        cwd = home
+        if not any(s_[1] == home + '/' + dn_ for s_ in steps):
+            G.make_entry(rng, home + '/' + dn_, rng.choice(['file', 'dir', 'empty']), steps, home + '/aux')
+            args.insert(rng.randint(0, len(args)), dn_)
     opts = []
     stdin = ''
     if L['vols'] and rng.random() < 0.1 and not deeptrash:
@@ -215,8 +223,8 @@ def check(sim, case, st):
     if not files:
         return []
     mounts = OR.mounts_of(case)
-    force = '-f' in argv
-    inter = '-i' in argv
+    force = '-f' in argv[:argv.index('--')]
+    inter = '-i' in argv[:argv.index('--')]
     rmap = reply_map(case, files)
     before, named, r, after = run_one(sim, case, files, rmap, st, mounts)
     # duplicates: handled as a special, narrower check
